@@ -33,7 +33,7 @@ func (c03) Batches(tier string, seed uint64) []core.Batch {
 	b = append(b, spread("invalid", 4, tierN(tier, 1500, 6000))...)
 	b = append(b, spread("exh", 8, 0)...)
 	b = append(b, spread("rtrand", 8, tierN(tier, 12000, 60000))...)
-	b = append(b, core.Batch{Name: "corpus"}) // versions of this machine's dpkg database
+	b = append(b, core.Batch{Name: "corpus"})                                        // versions of this machine's dpkg database
 	b = append(b, core.Batch{Name: "volume", N: tierN(tier, 3_000_000, 30_000_000)}) // one case, one process: see volume.go
 	return append(b, conc(tierN(tier, 300, 2000), "grammar", "rtrand")...)
 }
